@@ -205,7 +205,8 @@ Definition C06_store_write_error_full (latch : bool) : Prop :=
     w_open_err w = false ->
     c_enc c v = Some chunks ->
     w_cap w = Some k ->
-    k < lenN (concat chunks) -> store hasher_ok hash encoders latch sk w st lp v = (sfail EIo, st).
+    k < lenN (concat chunks) ->
+    store hasher_ok hash encoders latch sk w st lp v = (sfail (wfail_class w chunks), st).
 
 (* with the latch (repaired tree, fix 4c486a6) it holds for every encoder ... *)
 Theorem C06_store_write_error : C06_store_write_error_full true.
@@ -226,7 +227,8 @@ Theorem C06_store_write_error_partial :
     latch || negb (c_werr_ignored c) = true ->
     c_enc c v = Some chunks ->
     w_cap w = Some k ->
-    k < lenN (concat chunks) -> store hasher_ok hash encoders latch sk w st lp v = (sfail EIo, st).
+    k < lenN (concat chunks) ->
+    store hasher_ok hash encoders latch sk w st lp v = (sfail (wfail_class w chunks), st).
 Proof. exact store_write_error. Qed.
 Print Assumptions C06_store_write_error_partial.
 
